@@ -148,7 +148,21 @@ func init() {
 					if id == 0x0801 {
 						body = append(body, make([]byte, 36)...)
 					}
-					switch rr.Intn(5) {
+					switch rr.Intn(6) {
+					case 5: // the first packet of a transfer shares its read with the next message; the transfer completes in later reads
+						mk := func(no int) []byte {
+							b := make([]byte, 24+no)
+							for k := range b {
+								b[k] = byte(no*0x11 + k)
+							}
+							return buildFrame(hdrSpec{id: 0x0801, serial: t.nextSerial(), ver: t.ver, verbyte: 1, frag: 1, total: 3, no: no, phone: t.phone, body: b})
+						}
+						p1 := mk(1)
+						t.send(append(p1, t.frame(id, body)...))
+						time.Sleep(400 * time.Microsecond)
+						t.send(mk(2))
+						time.Sleep(300 * time.Microsecond)
+						t.send(mk(3))
 					case 0: // two frames in one write (buffered path)
 						f := t.frame(id, body)
 						t.send(append(f, t.frame(0x0002, nil)...))
